@@ -33,7 +33,7 @@ func profileByName(name string) Profile {
 		p.W["mkdir"] = 1
 		p.W["symlink"] = 1
 		p.W["stale"] = 0
-		p.W["shrinkrace"] = 5
+		p.W["shrinkrace"] = 8
 		p.W["indwrite"] = 7 // sparse files with data only behind the indirect / double-indirect boundary
 		p.Lazy = true
 		p.MaxWrite = 40000
